@@ -96,6 +96,13 @@ func warnInertDeclarations(module *ast.Module) {
 	}
 }
 
+// compiledRouteKey identifies a route in the compiled-bytecode table. The path
+// alone is not enough: the same path is commonly declared under several
+// methods (GET and POST /items), each with its own body.
+func compiledRouteKey(route *ast.Route) string {
+	return route.Method.String() + " " + route.Path
+}
+
 // setupRoutes handles the common logic of determining execution mode, compiling routes,
 // and setting up the router. Used by both startServer and buildDevServer.
 // filePath is the path to the source file, used for resolving relative module imports.
@@ -151,7 +158,7 @@ func setupRoutes(module *ast.Module, filePath string, forceInterpreter ...bool) 
 					useCompiler = false
 					break
 				}
-				compiledRoutes[route.Path] = bytecode
+				compiledRoutes[compiledRouteKey(route)] = bytecode
 			}
 		}
 	}
@@ -171,7 +178,7 @@ func setupRoutes(module *ast.Module, filePath string, forceInterpreter ...bool) 
 	if useCompiler {
 		for _, item := range module.Items {
 			if route, ok := item.(*ast.Route); ok {
-				bytecode := compiledRoutes[route.Path]
+				bytecode := compiledRoutes[compiledRouteKey(route)]
 				regErr := registerCompiledRoute(router, route, bytecode, wsServer.GetHub())
 				if regErr != nil {
 					printWarning(fmt.Sprintf("Failed to register route %s: %v", route.Path, regErr))
